@@ -121,6 +121,7 @@ def spec_get_own(o, k):
     return UNDEFINED
 
 
+@effectful
 def spec_invoke_getter(vm, getter, this_val):
     """callee contract of VM._invoke_getter used here: it is called with (getter, receiver); its result is arbitrary"""
     ghost_set("getter.fn", getter)
@@ -148,12 +149,12 @@ def c_get_property_object(vm: Obj("VM"), obj: Obj("JSObject"), key: Str):
             check("absent-reads-undefined", same_ref(r[1], UNDEFINED))
         check("absent-runs-no-getter", ghost_get("getter.calls", 0) == 0)
     elif spec_is_accessor(h, key):
-        if key in h._getters:
-            g = h._getters[key]
-            check("accessor.getter-runs-once", ghost_get("getter.calls", 1) == 1)
-            check("accessor.getter-is-the-holders", same_ref(ghost_get("getter.fn", g), g))
-            check("accessor.this-is-the-receiver", same_ref(ghost_get("getter.this", obj), obj))
-            check("accessor.result-is-returned", same_value(r[1], ghost_get("getter.result", r[1])))
+        g = h._getters.get(key)
+        if g is not None:
+            check("accessor.getter-runs-once", ghost_get("getter.calls", 0) == 1)
+            check("accessor.getter-is-the-holders", same_ref(ghost_get("getter.fn", None), g))
+            check("accessor.this-is-the-receiver", same_ref(ghost_get("getter.this", None), obj))
+            check("accessor.result-is-returned", ghost_get("getter.calls", 0) == 1 and same_value(r[1], ghost_get("getter.result", None)))
         else:
             check("accessor.no-getter-reads-undefined", same_ref(r[1], UNDEFINED))
             check("accessor.no-getter-runs-nothing", ghost_get("getter.calls", 0) == 0)
@@ -199,3 +200,413 @@ register(c_get_property_object, id="C08.VM._get_property.object", prop="C08", ta
          native=_vm_method("_get_property"), heap_inputs=True,
          summaries=dict(OWN_SUMMARIES, **{"microjs.vm:VM._invoke_getter": spec_invoke_getter,
                                           "microjs.vm:VM._make_object_method": spec_make_object_method}))
+
+
+# ---- mutators of JSObject: whole-view postconditions ----------------------------------------------------------------
+def c_set(self: Obj("JSObject"), key: Str, value: JSVal):
+    """set(k, v): own data property k is v; every other key and every other object unchanged"""
+    snap = heap_snapshot()
+    props = self._properties
+    order = self._key_order
+    r = outcome(REAL, self, key, value)
+    check("never-raises", r[0] == "ret")
+    check("post.key-maps-to-value", dict_after_store(snap, props, key, value))
+    if order is None:
+        check("frame.nothing-else", heap_unchanged(snap, (props, "dict")))
+    else:
+        check("post.key-order-extended", dict_after_store(snap, order, key, None))
+        check("frame.nothing-else", heap_unchanged(snap, (props, "dict"), (order, "dict")))
+
+
+def c_delete(self: Obj("JSObject"), key: Str):
+    """delete(k): k is no own property any more (data and both accessor halves); other keys, other objects unchanged;
+    reports success also for an absent key"""
+    assume(self._hidden is None)
+    snap = heap_snapshot()
+    props, getters, setters, order = self._properties, self._getters, self._setters, self._key_order
+    r = outcome(REAL, self, key)
+    check("returns-true", r[0] == "ret" and r[1] is True)
+    check("post.no-own-property", not spec_has_own(self, key))
+    check("post.other-data-keys", dict_after_remove(snap, props, key))
+    check("post.other-getters", dict_after_remove(snap, getters, key))
+    check("post.other-setters", dict_after_remove(snap, setters, key))
+    check("frame.nothing-else", heap_unchanged(snap, (props, "dict"), (getters, "dict"), (setters, "dict"), (order, "dict")))
+
+
+def c_define_getter(self: Obj("JSObject"), key: Str, fn: JSVal):
+    """define_getter(k, g): k becomes an accessor with getter g (a data property k is dropped, the setter half kept)"""
+    assume(self._key_order is not None)
+    snap = heap_snapshot()
+    props, getters, setters, order = self._properties, self._getters, self._setters, self._key_order
+    had_setter = key in setters
+    r = outcome(REAL, self, key, fn)
+    check("never-raises", r[0] == "ret")
+    check("post.getter-stored", dict_after_store(snap, getters, key, fn))
+    check("post.data-property-dropped", dict_after_remove(snap, props, key))
+    check("post.setter-half-kept", (key in setters) == had_setter)
+    check("post.is-accessor", spec_is_accessor(self, key) and not (key in props))
+    check("frame.nothing-else", heap_unchanged(snap, (props, "dict"), (getters, "dict"), (order, "dict")))
+
+
+def c_define_value(self: Obj("JSObject"), key: Str, value: JSVal):
+    """define_value(k, v): k becomes a data property (both accessor halves dropped once the object tracks accessors)"""
+    snap = heap_snapshot()
+    props, getters, setters, order = self._properties, self._getters, self._setters, self._key_order
+    r = outcome(REAL, self, key, value)
+    check("never-raises", r[0] == "ret")
+    check("post.key-maps-to-value", dict_after_store(snap, props, key, value))
+    if order is not None:
+        check("post.not-an-accessor", not spec_is_accessor(self, key))
+        check("post.other-getters", dict_after_remove(snap, getters, key))
+        check("post.other-setters", dict_after_remove(snap, setters, key))
+        check("frame.nothing-else", heap_unchanged(snap, (props, "dict"), (getters, "dict"), (setters, "dict"), (order, "dict")))
+    else:
+        check("frame.nothing-else", heap_unchanged(snap, (props, "dict")))
+
+
+for _name, _fn in (("set", c_set), ("delete", c_delete), ("define_getter", c_define_getter), ("define_value", c_define_value)):
+    register(_fn, id=f"C08.JSObject.{_name}", prop="C08", target=method("microjs.values", f"JSObject.{_name}"),
+             native=_native_method("JSObject", _name), heap_inputs=True,
+             field_types={"JSObject._key_order": "dict?"})
+
+
+# ---- VM._set_property / _delete_property on ordinary objects --------------------------------------------------------
+@effectful
+def spec_invoke_setter(vm, setter, this_val, value):
+    ghost_set("setter.fn", setter)
+    ghost_set("setter.this", this_val)
+    ghost_set("setter.value", value)
+    ghost_set("setter.calls", ghost_get("setter.calls", 0) + 1)
+    return None
+
+
+def c_set_property_object(vm: Obj("VM"), obj: Obj("JSObject"), key: Str, value: JSVal):
+    """writes affect only the receiver; an accessor found before any data property (own or inherited) takes the
+    assignment and runs with the receiver as this; without a setter the assignment changes nothing"""
+    h = spec_holder(obj, key)
+    snap = heap_snapshot()
+    props, order = obj._properties, obj._key_order
+    r = outcome(REAL, vm, obj, key, value)
+    check("never-raises", r[0] == "ret")
+    if h is not None and spec_is_accessor(h, key):
+        check("accessor.assignment-writes-nothing", heap_unchanged(snap))
+        s = h._setters.get(key)
+        if s is not None:
+            check("accessor.setter-runs-once", ghost_get("setter.calls", 0) == 1)
+            check("accessor.setter-is-the-holders", same_ref(ghost_get("setter.fn", None), s))
+            check("accessor.this-is-the-receiver", same_ref(ghost_get("setter.this", None), obj))
+            check("accessor.value-is-passed", ghost_get("setter.calls", 0) == 1 and same_value(ghost_get("setter.value", None), value))
+        else:
+            check("accessor.no-setter-runs-nothing", ghost_get("setter.calls", 0) == 0)
+    else:
+        check("data.runs-no-setter", ghost_get("setter.calls", 0) == 0)
+        check("data.receiver-owns-key", dict_after_store(snap, props, key, value))
+        if order is None:
+            check("data.only-the-receiver-changes", heap_unchanged(snap, (props, "dict")))
+        else:
+            check("data.only-the-receiver-changes", heap_unchanged(snap, (props, "dict"), (order, "dict")))
+
+
+register(c_set_property_object, id="C08.VM._set_property.object", prop="C08", target=method("microjs.vm", "VM._set_property"),
+         native=_vm_method("_set_property"), heap_inputs=True, field_types={"JSObject._key_order": "dict?"},
+         summaries=dict(OWN_SUMMARIES, **{"microjs.vm:VM._invoke_setter": spec_invoke_setter}))
+
+
+def c_delete_property_object(vm: Obj("VM"), obj: Obj("JSObject"), key: Str):
+    """deletes affect only the receiver (inherited properties stay)"""
+    assume(obj._hidden is None)
+    snap = heap_snapshot()
+    props, getters, setters, order = obj._properties, obj._getters, obj._setters, obj._key_order
+    r = outcome(REAL, vm, obj, key)
+    check("returns-true", r[0] == "ret" and r[1] is True)
+    check("post.no-own-property", not spec_has_own(obj, key))
+    check("frame.only-the-receiver-changes",
+          heap_unchanged(snap, (props, "dict"), (getters, "dict"), (setters, "dict"), (order, "dict")))
+    check("post.other-data-keys", dict_after_remove(snap, props, key))
+
+
+register(c_delete_property_object, id="C08.VM._delete_property.object", prop="C08",
+         target=method("microjs.vm", "VM._delete_property"), native=_vm_method("_delete_property"), heap_inputs=True,
+         field_types={"JSObject._key_order": "dict?"})
+
+
+# ---- `in` and `instanceof` --------------------------------------------------------------------------------------------
+from microjs.opcodes import OpCode  # noqa: E402
+
+
+def _opnative():
+    """VM._execute_opcode with a recording wrapper around JSObject.holder (native ghost state)"""
+    from microjs.vm import VM
+    import microjs.values as V
+    import pyvc.api as A
+
+    def run(vm, *args):
+        orig = V.JSObject.holder
+
+        def rec(self, key):
+            r = orig(self, key)
+            A.GHOST.update({"holder.obj": self, "holder.key": key, "holder.result": r, "holder.calls": A.GHOST.get("holder.calls", 0) + 1})
+            return r
+        V.JSObject.holder = rec
+        try:
+            return VM._execute_opcode(vm, *args)
+        finally:
+            V.JSObject.holder = orig
+    return run
+
+
+@effectful
+def spec_holder_recorded(o, k):
+    """callee contract of JSObject.holder (proved above) with its arguments and result recorded"""
+    r = spec_holder(o, k)
+    ghost_set("holder.obj", o)
+    ghost_set("holder.key", k)
+    ghost_set("holder.result", r)
+    ghost_set("holder.calls", ghost_get("holder.calls", 0) + 1)
+    return r
+
+
+def c_in(vm: Obj("VM"), frame: Obj("CallFrame"), base: ValList, key: Str, obj: Obj("JSObject")):
+    """key in obj  <=>  some object on obj's prototype chain has key as own property (data or accessor):
+    the result is `holder(obj, key) is not None` on a heap that differs from the entry heap in the operand stack only"""
+    vm.stack = base + [key, obj]
+    stack = vm.stack
+    n = len(base)
+    snap = heap_snapshot()
+    o = outcome(REAL, vm, OpCode.IN, None, frame)
+    check("completes", o[0] == "ret")
+    check("depth", len(vm.stack) == n + 1)
+    check("only-the-operand-stack-changes", heap_unchanged(snap, (stack, "list.items")))
+    check("asks-HasProperty-of-the-operands", ghost_get("holder.calls", 0) == 1 and same_ref(ghost_get("holder.obj", None), obj)
+          and ghost_get("holder.key", None) == key)
+    if len(vm.stack) == n + 1:
+        check("operands-below-untouched", vm.stack[:n] == base)
+        check("value-is-HasProperty", ghost_get("holder.calls", 0) == 1 and vm.stack[n] is (ghost_get("holder.result", None) is not None))
+
+
+register(c_in, id="C08.op.IN", prop="C08", target=opcode("IN"), native=_opnative, heap_inputs=True,
+         summaries=dict(OWN_SUMMARIES, **{"microjs.values:JSObject.holder": spec_holder_recorded}))
+
+
+@recursive
+def spec_chain_has(c, proto) -> "bool":
+    """proto occurs on the chain c, c.[[Prototype]], ..."""
+    if c is None:
+        return False
+    if c is proto:
+        return True
+    return spec_chain_has(getattr(c, "_prototype", None), proto)
+
+
+def inv_instanceof(obj, proto, current, result):
+    return (result is False) and spec_chain_has(current, proto) == spec_chain_has(getattr(obj, "_prototype", None), proto)
+
+
+def c_instanceof(vm: Obj("VM"), frame: Obj("CallFrame"), base: ValList, obj: Obj("JSObject"), ctor: Obj("JSFunction"), proto: Obj("JSObject")):
+    """o instanceof F  <=>  F.prototype (the current value) occurs on o's prototype chain, for chains of any length"""
+    assume(not hasattr(ctor, "_original_func"))
+    ctor._prototype = proto
+    vm.stack = base + [obj, ctor]
+    n = len(base)
+    expected = spec_chain_has(obj._prototype, proto)
+    o = outcome(REAL, vm, OpCode.INSTANCEOF, None, frame)
+    check("completes", o[0] == "ret")
+    check("depth", len(vm.stack) == n + 1)
+    if len(vm.stack) == n + 1:
+        check("operands-below-untouched", vm.stack[:n] == base)
+        check("value-follows-the-chain", vm.stack[n] is expected)
+
+
+register(c_instanceof, id="C08.op.INSTANCEOF", prop="C08", target=opcode("INSTANCEOF"), native=_opnative, heap_inputs=True,
+         invariants={("microjs.vm:VM._execute_opcode[INSTANCEOF]", "current is not None"): inv_instanceof})
+
+
+# =======================================================================================================================
+# B: bounded stand-ins through Context.eval (never counted as proved)
+# =======================================================================================================================
+import multiprocessing as mp
+import specs.es_object as EO
+import specs.es_calls as EC
+
+FEATURE_SETS = {
+    "all": None,
+    "data": ["lit", "newobj", "set", "del", "defdata", "create"],
+    "accessors": ["lit", "create", "set", "del", "defacc", "defdata", "setproto"],
+    "prototypes": ["lit", "create", "newobj", "set", "del", "setproto", "regproto", "fprotoset"],
+    "constructors": ["new", "newbound", "fproto", "fprotoset", "fprotochain", "ret", "regproto", "regfn", "set", "lit"],
+    "functions": ["regfn", "set", "del", "new", "fproto", "lit", "create"],
+    "arrays": ["arr", "lit", "create", "setproto", "set"],
+}
+
+
+def _index_like(k):
+    return k.isdigit() and (k == "0" or k[0] != "0")
+
+
+def normalize_key_order(line):
+    """known finding `integer-key-order`: own keys are enumerated in creation order, ES puts canonical array
+    indices first in ascending order.  Compare the enumeration fields as multisets for objects that own such a key."""
+    def fix(block):
+        m = re.search(r"K=([^;]*);", block)
+        if not m or not any(_index_like(k) for k in m.group(1).split("/") if k):
+            return block
+        def srt(mm):
+            name, body = mm.group(1), mm.group(2)
+            parts = [x for x in body.split("/") if x != ""]
+            tail = "/" if name == "F" and parts else ""
+            return f"{name}=" + "/".join(sorted(parts)) + tail + ";"
+        return re.sub(r"\b([KFVE])=([^;]*);", srt, block)
+    return re.sub(r"#\d+\{[^}]*\}", lambda mm: fix(mm.group(0)), line)
+
+
+def _run_history(args):
+    seed, feats, nmax = args
+    from microjs import Context
+    rng = random.Random(seed)
+    h = EO.gen_history(rng, n_ops=rng.randrange(2, nmax), features=feats)
+    exp = h.expected()
+    try:
+        out = str(Context(time_limit=20).eval(h.js()))
+    except BaseException as e:  # noqa
+        out = "CRASH " + type(e).__name__ + ": " + str(e)[:200]
+    lines = out.split("\n")
+    known = False
+    for i, want in enumerate(exp):
+        got = lines[i] if i < len(lines) else "<missing>"
+        if got in want:
+            continue
+        if normalize_key_order(got) in {normalize_key_order(w) for w in want}:
+            known = True
+            continue
+        # unlisted mismatch: shortest failing prefix of the history
+        nops = sum(1 for _ in h.ops)
+        upto = min(nops, i // 2 + 1)
+        return seed, "bad", {"line": i, "got": got[:1500], "expected": sorted(want)[0][:1500], "ops": repr(h.ops[:upto])[:2000],
+                             "program": h.js(upto=upto)}
+    if len(lines) != len(exp):
+        return seed, "bad", {"line": len(exp), "got": "<%d extra lines>" % (len(lines) - len(exp)), "expected": "", "ops": repr(h.ops)[:2000], "program": h.js()}
+    return seed, ("known" if known else "ok"), None
+
+
+def _histories(tier="quick", seed=0):
+    n = 60 if tier == "quick" else 1500
+    out = []
+    jobs = []
+    for fi, (name, feats) in enumerate(FEATURE_SETS.items()):
+        for k in range(n * (3 if name == "all" else 1)):
+            jobs.append((name, (seed * 1000003 + fi * 100003 + k, feats, 9 if tier == "quick" else 12)))
+    with mp.get_context("fork").Pool(min(16, os.cpu_count() or 4)) as pool:
+        rs = pool.map(_run_history, [j[1] for j in jobs], chunksize=8)
+    by = {}
+    known_hits = []
+    for (name, _), (sd, st, info) in zip(jobs, rs):
+        e = by.setdefault(name, {"n": 0, "bad": None})
+        e["n"] += 1
+        if st == "bad" and e["bad"] is None:
+            e["bad"] = (sd, info)
+        if st == "known":
+            known_hits.append(sd)
+    for name, e in by.items():
+        b = e["bad"]
+        out.append(ob(f"C08.bounded.histories.{name}", b is None, "B",
+                      f"{e['n']} generated histories agree with the reference object model after every step" if b is None else
+                      f"seed {b[0]}: step line {b[1]['line']}: engine {b[1]['got'][:300]} expected {b[1]['expected'][:300]}",
+                      witness=(b[1]["program"] if b else None), confirmed=True if b else None, domain=e["n"]))
+    out.append(ob("C08.bounded.histories.integer-key-order", not known_hits, "B",
+                  "no history enumerated an integer-like key" if not known_hits else
+                  f"{len(known_hits)} histories differ from ES only in the position of integer-like keys in keys/values/entries/for-in (first seed {known_hits[0]})",
+                  witness=("var o = {b: 1}; o[1] = 2; Object.keys(o).join()  // engine 'b,1', ES '1,b'" if known_hits else None),
+                  confirmed=True if known_hits else None, key="C08.history.integer-key-order"))
+    return out
+
+
+groups.group(id="C08.bounded.histories", prop="C08", kind="B", functions=["microjs.context:Context.eval"])(_histories)
+
+
+def _same(got, exp):
+    if isinstance(exp, set):
+        return any(_same(got, e) for e in exp)
+    if isinstance(exp, bool) or isinstance(got, bool):
+        return got is exp
+    if isinstance(exp, (int, float)):
+        return isinstance(got, (int, float)) and got == exp
+    return got == exp
+
+
+def _calls(tier="quick", seed=0):
+    from microjs import Context
+    by = {}
+    for cid, src, exp in EC.cases():
+        grp = cid.split(".")[0]
+        try:
+            got = Context(time_limit=10).eval(src)
+        except BaseException as e:  # noqa
+            got = f"!{type(e).__name__}: {e}"[:200]
+        e = by.setdefault(grp, {"n": 0, "bad": None})
+        e["n"] += 1
+        if not _same(got, exp) and e["bad"] is None:
+            e["bad"] = (cid, src, got, exp)
+    out = []
+    for grp, e in by.items():
+        b = e["bad"]
+        out.append(ob(f"C08.bounded.calls.{grp}", b is None, "B",
+                      f"{e['n']} call-form cases agree with ES" if b is None else f"{b[0]}: engine {b[2]!r} expected {b[3]!r}",
+                      witness=(b[1] if b else None), confirmed=True if b else None, domain=e["n"]))
+    return out
+
+
+groups.group(id="C08.bounded.calls", prop="C08", kind="B", functions=["microjs.context:Context.eval"])(_calls)
+
+
+# ---- fixed probes of the object model (each carries its ES answer; deviations are known findings or violations) ------
+PROBES = [
+    ("null-proto-has-no-toString", "typeof Object.create(null).toString", "undefined"),
+    ("getPrototypeOf-function", "function F() {} Object.getPrototypeOf(F) === Function.prototype", True),
+    ("function-as-prototype", "function F() {} F.k = 3; var o = Object.create(F); o.k", 3),
+    ("defineProperty-on-function", "function F() {} Object.defineProperty(F, 'k', {value: 1, writable: true, enumerable: true, configurable: true}); F.k", 1),
+    ("array-prototype-exists", "typeof Array.prototype", "object"),
+    ("array-inherits", "var a = []; Object.getPrototypeOf(a) === Array.prototype", True),
+    ("in-array-index", "var a = [1, 2]; (0 in a) + '|' + (2 in a) + '|' + ('length' in a)", "true|false|true"),
+    ("keys-of-array", "Object.keys([4, 5]).join()", "0,1"),
+    ("keys-of-string", "Object.keys('ab').join()", "0,1"),
+    ("entries-order", "var e = Object.entries({a: 1, b: 2}); e[0][0] + e[0][1] + e[1][0] + e[1][1]", "a1b2"),
+    ("inherited-getter-vs-own-data", "var p = {get x() { return 1; }}; var o = Object.create(p); Object.defineProperty(o, 'x', {value: 5, writable: true, enumerable: true, configurable: true}); o.x", 5),
+    ("inherited-setter-no-own", "var p = {set x(v) { this.y = v; }}; var o = Object.create(p); o.x = 3; o.y + '|' + Object.keys(o).join()", "3|y"),
+    ("getter-only-assignment-ignored", "var o = {get x() { return 1; }}; try { o.x = 2; } catch (e) {} o.x", 1),
+    ("delete-accessor", "var o = {get a() { return 1; }}; delete o.a; ('a' in o) + '|' + o.a", "false|undefined"),
+    ("delete-inherited-noop", "var p = {a: 1}; var o = Object.create(p); (delete o.a) + '|' + o.a", "true|1"),
+    ("literal-accessor-pair", "var o = {get a() { return this.b; }, set a(v) { this.b = v * 2; }}; o.a = 2; o.a", 4),
+    ("literal-data-then-getter", "var o = {a: 1, get a() { return 2; }}; o.a + '|' + Object.keys(o).join()", "2|a"),
+    ("literal-getter-then-data", "var o = {get a() { return 2; }, a: 1}; o.a", 1),
+    ("computed-keys", "var k = 'x'; var o = {[k + 1]: 1, [2]: 2}; o.x1 + '|' + o['2']", "1|2"),
+    ("numeric-key-canonical", "var o = {}; o[1.0] = 'a'; o['1'] + '|' + o[1]", "a|a"),
+    ("setPrototypeOf-cycle", "var a = {}, b = Object.create(a); var r; try { Object.setPrototypeOf(a, b); r = 'no'; } catch (e) { r = e.name; } r", "TypeError"),
+    ("create-with-descriptors", "var o = Object.create({z: 1}, {q: {value: 2, writable: true, enumerable: true, configurable: true}}); o.z + '|' + o.q + '|' + Object.keys(o).join()", "1|2|q"),
+    ("getOwnPropertyDescriptor", "var o = {a: 1, get b() { return 2; }}; var d = Object.getOwnPropertyDescriptor(o, 'a'), e = Object.getOwnPropertyDescriptor(o, 'b'); d.value + '|' + (typeof e.get) + '|' + (Object.getOwnPropertyDescriptor(o, 'c') === undefined)", "1|function|true"),
+    ("assign-runs-setters", "var log = ''; var t = {set a(v) { log += v; }}; Object.assign(t, {a: 1, b: 2}); log + '|' + t.b", "1|2"),
+    ("values-run-getters", "Object.values({get a() { return 7; }, b: 1}).join()", "7,1"),
+    ("hasOwnProperty-chain", "var p = {a: 1}; var o = Object.create(p); o.b = 2; o.hasOwnProperty('a') + '|' + o.hasOwnProperty('b') + '|' + ('a' in o)", "false|true|true"),
+    ("isPrototypeOf", "var p = {}; var o = Object.create(p); p.isPrototypeOf(o) + '|' + o.isPrototypeOf(p)", "true|false"),
+    ("function-own-property", "function F() {} F.x = 1; F.x + '|' + ('x' in F) + '|' + F.hasOwnProperty('x') + '|' + Object.keys(F).join()", "1|true|true|x"),
+    ("function-prototype-own", "function F() {} ('prototype' in F) + '|' + F.hasOwnProperty('prototype') + '|' + (typeof F.prototype)", "true|true|object"),
+    ("compound-member-assign", "var o = {x: 5}; o.x += 3; o['x'] *= 2; o.x", 16),
+    ("new-member-callee", "var ns = {K: function (a) { this.a = a; }}; new ns.K(3).a", 3),
+    ("integer-key-order", "var o = {b: 1}; o[1] = 2; Object.keys(o).join()", "1,b"),
+]
+
+
+def _probes(tier="quick", seed=0):
+    from microjs import Context
+    out = []
+    for name, src, exp in PROBES:
+        try:
+            got = Context(time_limit=10).eval(src)
+        except BaseException as e:  # noqa
+            got = f"!{type(e).__name__}: {e}"[:200]
+        ok = _same(got, exp)
+        out.append(ob(f"C08.bounded.probe.{name}", ok, "B", f"{src}  =>  {got!r}" + ("" if ok else f"  (ES: {exp!r})"),
+                      witness=None if ok else src, confirmed=None if ok else True, domain=1, key=f"C08.probe.{name}"))
+    return out
+
+
+groups.group(id="C08.bounded.probes", prop="C08", kind="B", functions=["microjs.context:Context.eval"])(_probes)
